@@ -30,7 +30,9 @@ P0=$(echo "$R0" | grep -c "^ok"); F1=$(echo "$R1" | grep -c "^FAIL")
 EXIST_FAIL=$(echo "$T" | grep "^--- FAIL" | grep -v TestTaprootScritps | wc -l)
 cd /verif
 echo "== check $PROP on /repo with the change applied"
+EVSAVE=$(mktemp); cp /verif/evidence/$PROP.json $EVSAVE 2>/dev/null
 git -C /repo apply $DST/patch.diff && OUT=$(/verif/check $PROP quick 2>&1); RC=$?; git -C /repo checkout -- .
+cp $EVSAVE /verif/evidence/$PROP.json 2>/dev/null; rm -f $EVSAVE   # the evidence file describes runs on the unchanged tree only
 echo "$OUT" | grep -E "VIOLATION|UNDECIDED|^property" | cut -c1-260
 DET=$(echo "$OUT" | grep -c "^VIOLATION")
 python3 - <<EOF
